@@ -7,7 +7,9 @@ import (
 	"iter"
 	"reflect"
 	"sort"
+	"strings"
 	"sync"
+	"unsafe"
 )
 
 var (
@@ -64,6 +66,14 @@ func Map[K comparable, V any](m map[K]V) iter.Seq2[K, V] {
 					if plainKey(typ) {
 						// floats, and structs/arrays built from plain kinds: %#v is injective on them (NaN keys excepted, which nothing can tell apart anyway)
 						cf = func(x any) string { return fmt.Sprintf("%#v", x) }
+					} else if vf := composedCanon(typ, 0); vf != nil {
+						// structs/arrays whose members are plain or have a registered canonical form (e.g. an
+						// unexported struct of benchproc.Key fields): canonical member by member
+						cf = func(x any) string {
+							v := reflect.New(typ).Elem()
+							v.Set(reflect.ValueOf(x))
+							return vf(v)
+						}
 					}
 				}
 			}
@@ -148,4 +158,60 @@ func plainKey(typ reflect.Type) bool {
 		return true
 	}
 	return false
+}
+
+// composedCanon builds a canonical form for an addressable value of typ out of the registered canonical forms of its
+// members; nil if some member has none.
+func composedCanon(typ reflect.Type, depth int) func(reflect.Value) string {
+	if depth > 4 {
+		return nil
+	}
+	canonMu.RLock()
+	reg := canon[typ]
+	canonMu.RUnlock()
+	if reg != nil {
+		return func(v reflect.Value) string {
+			if !v.CanInterface() {
+				v = reflect.NewAt(v.Type(), unsafe.Pointer(v.UnsafeAddr())).Elem()
+			}
+			return reg(v.Interface())
+		}
+	}
+	if plainKey(typ) {
+		return func(v reflect.Value) string {
+			if !v.CanInterface() {
+				v = reflect.NewAt(v.Type(), unsafe.Pointer(v.UnsafeAddr())).Elem()
+			}
+			return fmt.Sprintf("%#v", v.Interface())
+		}
+	}
+	switch typ.Kind() {
+	case reflect.Struct:
+		fs := make([]func(reflect.Value) string, typ.NumField())
+		for i := range fs {
+			if fs[i] = composedCanon(typ.Field(i).Type, depth+1); fs[i] == nil {
+				return nil
+			}
+		}
+		return func(v reflect.Value) string {
+			parts := make([]string, len(fs))
+			for i, f := range fs {
+				parts[i] = f(v.Field(i))
+			}
+			return strings.Join(parts, "\x00|")
+		}
+	case reflect.Array:
+		ef := composedCanon(typ.Elem(), depth+1)
+		if ef == nil {
+			return nil
+		}
+		return func(v reflect.Value) string {
+			parts := make([]string, v.Len())
+			for i := range parts {
+				parts[i] = ef(v.Index(i))
+			}
+			return strings.Join(parts, "\x00|")
+		}
+	}
+	return nil
 }
